@@ -22,7 +22,8 @@ ASSUMPTIONS = [
     "general (non power-of-two) scale factors are asserted on white/AR(1) records only, where the "
     "rounding of c*x cannot exceed 1e-11 of any bin",
 ]
-DECIDING_COUNTERS = ["calibrations", "enbw_checked", "scale_pairs", "fs_law_asserted"]
+DECIDING_COUNTERS = ["calibrations", "calibrations_by_fres", "enbw_checked", "scale_pairs",
+                     "fs_law_asserted"]
 MIN_NONTRIVIAL = {"quick": 400, "thorough": 8000}
 JOBS = {"quick": 8, "thorough": 16}
 
@@ -81,7 +82,17 @@ def calibration_case(rec, seedt, tier):
     try:
         an = SpectrumAnalyzer(x, fs, win="kaiser", psll=psll, order=order, olap=olap,
                               backend=backend)
-        r = an.compute_single_bin(f0, L=L)
+        if rng.random() < 0.35:
+            # request by resolution with a non-integer fs/fres that still rounds to L
+            fres = fs / (L + float(rng.uniform(-0.4, 0.4)))
+            r = an.compute_single_bin(f0, fres=fres)
+            rec.count("calibrations_by_fres")
+            if int(r.L[0]) != L:
+                rec.violation("fres-request-wrong-L", f"fres={fres!r} (fs/fres={fs / fres:.4f}) "
+                                                      f"gave L={int(r.L[0])}, expected {L}")
+                return
+        else:
+            r = an.compute_single_bin(f0, L=L)
     except BaseException as e:
         rec.violation("calibration:raises", f"{type(e).__name__}: {e}")
         return
